@@ -72,6 +72,8 @@ func (e *Engine) harnessAPI2(name string, args []Value, fn *ssa.Function) (Value
 			e.callFuncV(a.(*FuncV), nil)
 		}
 		return nil, true
+	case "vYield":
+		return nil, true
 	case "vScribble":
 		// the owner of a byte slice overwrites it: recorded as a store into its backing object (the contents
 		// are not changed for the solver - what matters is who else can reach that memory)
